@@ -171,7 +171,12 @@ theorem Shape_local (F : Flags) (o : Obs) (x : Act) (ev : Ev) (y : Act) (eff : E
   | ctxErr hp hc => exact plain _ Bare_ctx (fun _ h => by cases h)
   | precondFail hp hc => exact plain _ Bare_generic (fun _ h => by cases h)
   | upToDate hp hc => exact plain _ Bare_ok (fun _ h => by cases h)
-  | promptFail hp hc => exact plain _ (Bare_typed _) (fun _ h => by cases h)
+  | promptFail hp hc =>
+    refine plain _ ?_ ?_
+    · unfold promptRes; split
+      · exact Bare_generic
+      · exact Bare_typed _
+    · intro n h; unfold promptRes at h; split at h <;> cases h
   | _ => exact ⟨hS.out, hS.callRes⟩
 
 /-! ### the global invariant -/
